@@ -36,15 +36,15 @@ FLAVOURS = {
         "quick": ["-O0"], "thorough": ["-O1"],
         "common": ["-std=c++14", "-gline-tables-only", "-fno-omit-frame-pointer",
                    "-fsanitize=address,undefined", "-fno-sanitize-recover=all",
-                   "-fno-sanitize=nonnull-attribute", "-Wno-everything"],
+                   "-fno-sanitize=nonnull-attribute", "-Wno-everything", "-ferror-limit=8"],
         "link": ["-fsanitize=address,undefined", "-lpthread"]}),
     "tsan": (GXX, {
         "quick": ["-O1"], "thorough": ["-O1"],
-        "common": ["-std=c++14", "-g", "-fsanitize=thread", "-w"],
+        "common": ["-std=c++14", "-g", "-fsanitize=thread", "-w", "-fmax-errors=8"],
         "link": ["-fsanitize=thread", "-lpthread"]}),
     "plain": (GXX, {
         "quick": ["-O2"], "thorough": ["-O2"],
-        "common": ["-std=c++14", "-w"],
+        "common": ["-std=c++14", "-w", "-fmax-errors=8"],
         "link": ["-lpthread"]}),
 }
 
@@ -97,6 +97,14 @@ class HarnessError(Exception):
     pass
 
 
+class BuildViolation(Exception):
+    """A harness translation unit that instantiates supported library shapes no longer compiles, and the first error is
+    located inside /repo/include/nop: the library stopped supporting an instantiation the property quantifies over."""
+    def __init__(self, key, text, src):
+        Exception.__init__(self, key)
+        self.key, self.text, self.src = key, text, src
+
+
 def shared_headers(engine):
     hs = glob.glob(os.path.join(VERIF, "vlib", "*.h")) + glob.glob(os.path.join(VERIF, "ref", "*.h"))
     hs += glob.glob(os.path.join(VERIF, "engines", engine, "*.h"))
@@ -118,7 +126,8 @@ def compile_one(job):
             os.remove(tmp)
         except OSError:
             pass
-    return (src, p.returncode, p.stdout[-6000:], False, time.time() - t0)
+    out = p.stdout if len(p.stdout) < 16000 else p.stdout[:10000] + "\n...\n" + p.stdout[-5000:]
+    return (src, p.returncode, out, False, time.time() - t0)
 
 
 def prune_build(inc_key):
@@ -180,6 +189,10 @@ def build_engine(engine, flavour, tier, sources, extra_flags=(), gen_includes=()
     with cf.ThreadPoolExecutor(max_workers=NCPU) as ex:
         for r in ex.map(compile_one, jobs):
             if r[1] != 0:
+                m = re.search(r"(/\S*/include/nop/\S+?):(\d+):\d+: (?:fatal )?error: (.*)", r[2])
+                if m:
+                    msg = re.sub(r"'[^']*'", "'..'", m.group(3))[:80]
+                    raise BuildViolation("build-error@%s:%s" % (m.group(1).split("/include/nop/")[1], msg.strip().replace(" ", "_")), r[2], r[0])
                 raise HarnessError("compile failed: %s\n%s" % (r[0], r[2]))
             if not r[3]:
                 ncomp += 1
@@ -231,7 +244,7 @@ def sanitizer_key(text):
     if not kind:
         return None
     frame = "?"
-    for m in re.finditer(r"#\d+ 0x[0-9a-f]+ in (.+?) (/\S+?):(\d+)", text):
+    for m in re.finditer(r"#\d+ (?:0x[0-9a-f]+ in )?(.+?) (/\S+?):(\d+)", text):
         fn, path = m.group(1), m.group(2)
         if "/include/nop/" in path:
             frame = _fn_name(fn) + "@" + path.split("/include/nop/")[1]
@@ -419,7 +432,7 @@ def run_check(cfg, prop, tier, seed, workers, replay=None, keep=False):
                 continue
             key = sanitizer_key(block) or "tsan:unknown"
             # stack signature without line numbers
-            sig = re.sub(r":\d+", "", " ".join(m.group(1) for m in re.finditer(r"#\d+ \S+ in (\S+)", block)))[:400]
+            sig = re.sub(r":\d+", "", " ".join(_fn_name(m.group(1)) for m in re.finditer(r"#\d+ (?:0x[0-9a-f]+ in )?(.+?) /\S+?:\d+", block)))[:400]
             key = key + "#" + hashlib.sha1(sig.encode()).hexdigest()[:8] if key.endswith("@?") else key
             rp = os.path.join(outdir, "replay-%s-tsan-%s.json" % (prop, hashlib.sha1(key.encode()).hexdigest()[:8]))
             if key not in viols:
@@ -577,6 +590,17 @@ def main(argv):
         print("unknown check", prop); return 2
     try:
         return run_check(checks.CHECKS[prop], prop, tier, seed, workers, replay, keep)
+    except BuildViolation as e:
+        findings, _ = load_known()
+        os.makedirs(os.path.join(VERIF, "replays"), exist_ok=True)
+        rp = os.path.join(VERIF, "replays", "replay-%s-build-error.json" % prop)
+        json.dump({"property": prop, "key": e.key, "what": "a harness translation unit instantiating supported library shapes does not compile against /repo/include; first error inside libnop", "case": {"source": e.src}, "report": e.text[-6000:]}, open(rp, "w"), indent=1)
+        if any(f["property"] == prop and f["key"] == e.key for f in findings):
+            print("KNOWN-FINDING: property=%s %s" % (prop, e.key))
+            return 2
+        print("VIOLATION property=%s replay=%s" % (prop, rp))
+        print("  key=%s the library no longer compiles for a shape this property quantifies over (%s)" % (e.key, os.path.basename(e.src)))
+        return 1
     except HarnessError as e:
         log("HARNESS FAILURE: %s" % e)
         return 2
